@@ -262,3 +262,76 @@ func VerifC17_q_collectOnlyDead() {
 	_, derr := ioutil.ReadDir(filepath.Join(ipDir, "subdir"))
 	verifAssert("C17/dirs-kept", derr == nil, "a directory was removed")
 }
+
+
+// BOUND: one vanished or running container (arbitrary runtime answer) whose leftovers are any subset of {network state file, port file, ip file}; gc_dirs in the default order (state dir, then its port sub-directory) or with the port directory first; the port cleaner behaves like galaxy's cleanIPtables: it finds the mappings to remove only through the container's port file; up to two GC rounds
+// ASSUME: C17: the port-mapping cleaner is a harness model of Galaxy.cleanIPtables (reads and removes the container's port file, removes that container's rules), the iptables side is covered by C14
+func VerifC17_q_portMappingCollected() {
+	containerd := nondetBool()
+	c := vAnyContainer()
+	vContainers = map[string]*vContainer{"c1": c}
+	root, err := os.MkdirTemp("", "verifgc")
+	if err != nil {
+		return
+	}
+	defer os.RemoveAll(root)
+	stateDir, portDir, ipDir := filepath.Join(root, "galaxy"), filepath.Join(root, "galaxy", "port"), filepath.Join(root, "networks")
+	os.MkdirAll(portDir, 0o755)
+	os.MkdirAll(ipDir, 0o755)
+	hasState, hasPort, hasIP := nondetBool(), nondetBool(), nondetBool()
+	if hasState {
+		ioutil.WriteFile(filepath.Join(stateDir, "c1"), []byte("[]"), 0o644)
+	}
+	if hasPort {
+		ioutil.WriteFile(filepath.Join(portDir, "c1"), []byte(`[{"hostPort":8080}]`), 0o644)
+	}
+	if hasIP {
+		ioutil.WriteFile(filepath.Join(ipDir, "172.16.0.9"), []byte("c1"), 0o644)
+	}
+	rulesInstalled := hasPort // a container with a port file has host-port rules in the nat table
+	cleanPort := func(id string) error {
+		// like Galaxy.cleanIPtables: the port file tells which rules belong to the container
+		if _, err := ioutil.ReadFile(filepath.Join(portDir, id)); err != nil {
+			return nil
+		}
+		rulesInstalled = false
+		return os.Remove(filepath.Join(portDir, id))
+	}
+	dirs := []string{stateDir, portDir}
+	if nondetBool() {
+		dirs = []string{portDir, stateDir}
+	}
+	gc := &flannelGC{allocatedIPDir: []string{ipDir}, gcDirs: dirs, kubeCli: vKube{}, cleanPortFunc: cleanPort}
+	stop := func() {}
+	if containerd {
+		os.Setenv("CONTAINERD_HOST", "unix:///fake.sock")
+		gc.dockerCli = docker.VerifNewContainerdInterface(vRuntime{})
+		stop = func() { os.Unsetenv("CONTAINERD_HOST") }
+	} else {
+		os.Unsetenv("CONTAINERD_HOST")
+		if verifSymbolic() {
+			gc.dockerCli = docker.VerifNewDockerInterface("", nil)
+		} else {
+			srv := vDockerServer()
+			gc.dockerCli = docker.VerifNewDockerInterface(srv.URL, srv.Client())
+			stop = srv.Close
+		}
+	}
+	defer stop()
+	dead := c.deadDocker()
+	if containerd {
+		dead = c.deadContainerd()
+	}
+	for round := 0; round < 2; round++ {
+		_ = gc.cleanupGCDirs()
+		_ = gc.cleanupIP()
+	}
+	verifReach("two-rounds")
+	exists := func(p string) bool { _, err := ioutil.ReadFile(p); return err == nil }
+	if dead {
+		verifAssert("C17/dead-port-mapping-removed", !rulesInstalled, "the port mapping of a dead container is still installed after two GC rounds")
+		verifAssert("C17/dead-files-removed", !exists(filepath.Join(stateDir, "c1")) && !exists(filepath.Join(portDir, "c1")) && !exists(filepath.Join(ipDir, "172.16.0.9")), "state of a dead container is left after two GC rounds")
+	} else {
+		verifAssert("C17/live-untouched", rulesInstalled == hasPort && exists(filepath.Join(stateDir, "c1")) == hasState && exists(filepath.Join(portDir, "c1")) == hasPort && exists(filepath.Join(ipDir, "172.16.0.9")) == hasIP, "state or port mapping of a container that is not dead was removed")
+	}
+}
